@@ -243,3 +243,37 @@ Theorem C08_obs_no_return :
     step expr eval st (OAwaitAssign expr caller callee uid fid x) = Err ENoReturnValue.
 Proof. exact obs_no_return. Qed.
 Print Assumptions C08_obs_no_return.
+
+(* ---- the caller's wait for FlowStarted (known finding O5) ---- *)
+
+(* If the FlowStarted match carries only flow_id and flow_instance_uid (the candidate repair
+   fixes/C08-flowstarted-match.patch), every call that binds - well-formed or not, whatever the
+   callee does to globals before it is started - is echoed by the callee's FlowStarted event:
+   the caller is never left waiting for the start. *)
+Theorem C08_caller_resumes_if_match_is_uid_only :
+  forall (expr : Type) (eval : ctx -> expr -> value) (ps rs : list (param expr)) (ev a c : ctx)
+         (R : reserved) (evargs_at_match : ctx),
+    wf_signature expr ps rs = true ->
+    bind expr eval ps rs ev = Bound a c ->
+    forall k v, aget k (started_pattern false R evargs_at_match) = Some v ->
+                aget k (started_args (r_instance_uid R) (r_flow_id R) a) = Some v.
+Proof. exact started_uid_only_echoed. Qed.
+Print Assumptions C08_caller_resumes_if_match_is_uid_only.
+
+(* Regression documentation for the source as it is (the match carries the call arguments,
+   started_pattern true): a WELL-FORMED call `$x = await g1($g)` whose callee assigns the
+   global $g before it is started binds a = 1, yet the caller's pattern - evaluated when the
+   event arrives - demands `$0` = 2 while the event carries `$0` = 1: the caller waits forever
+   and `$x` is never assigned.  Recorded in KNOWN_FINDINGS.txt
+   (sig=await-hangs-callee-changes-global-used-in-argument). *)
+Theorem C08_await_hang_refuted :
+  wf_signature Examples.xe Examples.gs [] = true /\ syntactic_call Examples.xe Examples.call5 = true /\
+  well_formed_call Examples.xe Examples.gs Examples.call5 = true /\
+  exists st ec2,
+    run Examples.xe Examples.xeval m_init Examples.ops5 = Ok st /\ eval_ctx st 0 = Some ec2 /\
+    aget "a" (ctx_of st 1) = Some (VInt 1) /\
+    aget "$0" (started_pattern true Examples.R1
+                 (eval_args Examples.xe Examples.xeval ec2 (parse_args Examples.xe Examples.call5 0 []))) = Some (VInt 2) /\
+    aget "$0" (started_args (r_instance_uid Examples.R1) (r_flow_id Examples.R1) (m_args st 1)) = Some (VInt 1).
+Proof. exact Examples.await_hang_witness. Qed.
+Print Assumptions C08_await_hang_refuted.
